@@ -12,12 +12,14 @@ has a VECTOR input — the class counts of a leaf; `forest_model_privloss` is st
 the calculus, `DPL/Model/PrivLossVec.lean`: the packed input is decoded and measured with the mechanism's own
 convention, (max increase + max decrease)/sensitivity), LogisticRegression's split.
 Cited, as explicit hypotheses (never axioms): the eigenvalue perturbation bound and the Bingham input bound (PCA).
-Adaptive composition (turning the bounded loss into ε-DP of `fit`) is not formalised.
+Adaptive composition (turning the bounded loss into ε-DP of `fit`): last section, `plan_dp_of_lossLe`, `scaler_fit_dp`.
 -/
 import DPL.Proofs.ModelsLoss2
 import DPL.Proofs.ModelsFree
 import DPL.Proofs.ModelsScaler
 import DPL.Proofs.ModelsForest
+import DPL.Proofs.ModelsCompose3
+import DPL.Proofs.ModelsCompose4
 
 namespace DPL.C08
 open DPL DPL.PM
@@ -318,5 +320,164 @@ example (p : ForestParams ℝ) :
 example : ∃ p : ScalerParams ℝ, 0 ≤ p.eps ∧ 0 < p.d ∧ (∀ j, nth p.lo j ≤ nth p.hi j) ∧
     p.n = ([] : DS ℝ).length + 1 + ([] : DS ℝ).length :=
   ⟨⟨1, [0], [1], 1, 1, true, true⟩, by norm_num, by norm_num, by intro j; cases j <;> simp [nth], rfl⟩
+
+/-! ## Adaptive composition: from the bounded privacy-loss sum to ε-DP of the output law
+
+`Plan.law M p D` is the law of the release when invocation `c` on input `a` draws from the measure `M c a`
+(`Plan.lawOn`: the same as a set function, for every plan and every set, no measurability side condition).
+`MetricDP P M`: on the invocations satisfying `P`, inputs within the configured sensitivity give laws within
+`exp(ε·|a−b|/sens)` on every measurable set — what C02 proves for the Laplace family (`C02.laplace_dp`,
+`C02.laplace_truncated_dp`, from `Cont.lapMeasure_ratio`; discharged here as `laplace_family_metricDP`). -/
+
+section Compose
+open MeasureTheory ProbabilityTheory
+
+/-- adaptive composition of two pure-DP stages, JOINT law of (first output, second output) -/
+theorem adaptive_composition_pure {Y Z : Type*} [MeasurableSpace Y] [MeasurableSpace Z] (μ μ' : Measure Y)
+    [SFinite μ] [SFinite μ'] (κ κ' : Kernel Y Z) [IsSFiniteKernel κ] [IsSFiniteKernel κ'] (ε₁ ε₂ : ℝ)
+    (hμ : ∀ S, MeasurableSet S → μ S ≤ ENNReal.ofReal (Real.exp ε₁) * μ' S)
+    (hκ : ∀ y S, MeasurableSet S → κ y S ≤ ENNReal.ofReal (Real.exp ε₂) * κ' y S)
+    (S : Set (Y × Z)) (hS : MeasurableSet S) :
+    (μ.compProd κ) S ≤ ENNReal.ofReal (Real.exp (ε₁ + ε₂)) * (μ'.compProd κ') S :=
+  Compose.adaptive_composition_pure μ μ' κ κ' ε₁ ε₂ hμ hκ S hS
+
+/-- … and of the released second output only (`Measure.bind`) -/
+theorem adaptive_composition_bind {Y Z : Type*} [MeasurableSpace Y] [MeasurableSpace Z] (μ μ' : Measure Y)
+    (κ κ' : Kernel Y Z) (ε₁ ε₂ : ℝ)
+    (hμ : ∀ S, MeasurableSet S → μ S ≤ ENNReal.ofReal (Real.exp ε₁) * μ' S)
+    (hκ : ∀ y S, MeasurableSet S → κ y S ≤ ENNReal.ofReal (Real.exp ε₂) * κ' y S)
+    (T : Set Z) (hT : MeasurableSet T) :
+    (μ.bind κ) T ≤ ENNReal.ofReal (Real.exp (ε₁ + ε₂)) * (μ'.bind κ') T :=
+  Compose.adaptive_composition_bind μ μ' κ κ' ε₁ ε₂ hμ hκ T hT
+
+/-- n-fold: a list of stages `(εᵢ, κᵢ, κᵢ′)` on a state space `Y` (e.g. the history of outputs); the ε's add up -/
+theorem adaptive_composition_list {Y : Type*} [MeasurableSpace Y] (l : List (ℝ × Kernel Y Y × Kernel Y Y))
+    (hl : ∀ t ∈ l, ∀ y S, MeasurableSet S → t.2.1 y S ≤ ENNReal.ofReal (Real.exp t.1) * t.2.2 y S)
+    (μ μ' : Measure Y) (ε₀ : ℝ) (hμ : ∀ S, MeasurableSet S → μ S ≤ ENNReal.ofReal (Real.exp ε₀) * μ' S)
+    (S : Set Y) (hS : MeasurableSet S) :
+    Compose.iter (fun t => t.2.1) μ l S ≤
+      ENNReal.ofReal (Real.exp (ε₀ + (l.map Prod.fst).sum)) * Compose.iter (fun t => t.2.2) μ' l S :=
+  Compose.adaptive_composition_list l hl μ μ' ε₀ hμ S hS
+
+/-- non-vacuity of the stage hypotheses: identical stages are 0-close -/
+example (μ : Measure ℝ) (κ : Kernel ℝ ℝ) :
+    (∀ S, MeasurableSet S → μ S ≤ ENNReal.ofReal (Real.exp 0) * μ S) ∧
+    (∀ y S, MeasurableSet S → κ y S ≤ ENNReal.ofReal (Real.exp 0) * κ y S) := by
+  simp
+
+/-- **the semantic step** (closes the gap of the header): a plan with privacy-loss sum `≤ B` along EVERY sequence of
+forced outputs (`lossLe`, the conclusion of every `…_privloss` theorem above), agreeing probes, measurable
+continuations and metric-DP mechanisms has `B`-DP output law -/
+theorem plan_dp_of_lossLe {δ ρ : Type} [MeasurableSpace ρ] (P : MechCall ℝ → Prop) (M : MechCall ℝ → ℝ → Measure ℝ)
+    (hM : MetricDP P M) (D D' : δ) (p : Plan δ ℝ ρ) (B : ℝ) (hp : lossLe D D' p B) (hpr : p.probesAgree D D')
+    (hc : p.callsSat P) (hm : p.Meas M) (S : Set ρ) (hS : MeasurableSet S) :
+    p.law M D S ≤ ENNReal.ofReal (Real.exp B) * p.law M D' S :=
+  PM.plan_dp_of_lossLe P M hM D D' p B hp hpr hc hm S hS
+
+/-- the same for the set-function semantics: EVERY plan (arbitrary continuations), EVERY set -/
+theorem plan_lawOn_dp_of_lossLe {δ ρ : Type} (P : MechCall ℝ → Prop) (M : MechCall ℝ → ℝ → Measure ℝ)
+    (hM : MetricDP P M) (D D' : δ) (p : Plan δ ℝ ρ) (B : ℝ) (hp : lossLe D D' p B) (hpr : p.probesAgree D D')
+    (hc : p.callsSat P) (S : Set ρ) :
+    p.lawOn M D S ≤ ENNReal.ofReal (Real.exp B) * p.lawOn M D' S :=
+  PM.lawOn_dp_of_lossLe P M hM D D' p B hp hpr hc S
+
+/-- the two semantics coincide on measurable sets when the continuations are measurable -/
+theorem plan_law_eq_lawOn {δ ρ : Type} [MeasurableSpace ρ] (M : MechCall ℝ → ℝ → Measure ℝ) (p : Plan δ ℝ ρ)
+    (hm : p.Meas M) (D : δ) (S : Set ρ) (hS : MeasurableSet S) : p.law M D S = p.lawOn M D S :=
+  PM.law_eq_lawOn M p hm D S hS
+
+/-- the law of a sequential composition is the mixture (so `Plan.law` is the intended semantics of `Plan.bind`) -/
+theorem plan_law_bind {δ ρ σ : Type} [MeasurableSpace ρ] [MeasurableSpace σ] (M : MechCall ℝ → ℝ → Measure ℝ)
+    (p : Plan δ ℝ ρ) (q : ρ → Plan δ ℝ σ) (hp : p.Meas M) (hq : ∀ D, Measurable fun r => (q r).law M D) (D : δ) :
+    (p.bind q).law M D = (p.law M D).bind (fun r => (q r).law M D) :=
+  PM.law_bind M p q hp hq D
+
+/-- the metric-DP hypothesis holds for the Laplace family (scale sens/ε) and for its truncation to the configured
+bounds (`LaplaceTruncated`), on invocations with positive ε and sensitivity; both are families of probability laws -/
+theorem laplace_family_metricDP :
+    MetricDP (fun c => 0 < c.eps ∧ 0 < c.sens) lapKernel ∧ MetricDP (fun c => 0 < c.eps ∧ 0 < c.sens) truncLapKernel ∧
+    (∀ c a, IsProbabilityMeasure (lapKernel c a)) ∧ (∀ c a, IsProbabilityMeasure (truncLapKernel c a)) :=
+  ⟨lapKernel_metricDP, truncLapKernel_metricDP, lapKernel_isProb, truncLapKernel_isProb⟩
+
+/-- the textbook form of the hypothesis implies `MetricDP` -/
+theorem metricDP_of_abs (P : MechCall ℝ → Prop) (M : MechCall ℝ → ℝ → Measure ℝ)
+    (h : ∀ c, P c → ∀ a b, |a - b| ≤ c.sens → ∀ S, MeasurableSet S →
+      M c a S ≤ ENNReal.ofReal (Real.exp (c.eps * |a - b| / c.sens)) * M c b S)
+    (hP : ∀ c, P c → 0 < c.sens) : MetricDP P M :=
+  PM.metricDP_of_abs P M h hP
+
+/-- the measurability side condition holds for the StandardScaler plan, for ANY family of probability laws
+(releases: pairs of lists of reals with the σ-algebra generated by length and coordinates, `PM.listMS`) -/
+theorem scaler_plan_meas (M : MechCall ℝ → ℝ → Measure ℝ) (hprob : ∀ c a, IsProbabilityMeasure (M c a))
+    (p : ScalerParams ℝ) : (scalerPlan p).Meas M :=
+  meas_scalerPlan M hprob p
+
+/-- **StandardScaler.fit is ε-DP**: for every dataset, every single-record replacement, every family of probability
+mechanisms that is metric-DP on invocations with positive ε and sensitivity, and every measurable set of releases
+(noisy means, noisy variances).  `2 ≤ n` and strict bounds make every configured sensitivity positive. -/
+theorem scaler_fit_dp (p : ScalerParams ℝ) (hε : 0 < p.eps) (hd : 0 < p.d) (hn2 : 2 ≤ p.n)
+    (hb : ∀ j, nth p.lo j ≤ nth p.hi j) (hb' : ∀ j, j < p.d → nth p.lo j < nth p.hi j)
+    (pre post : DS ℝ) (r r' : Rec ℝ) (hn : p.n = pre.length + 1 + post.length)
+    (M : MechCall ℝ → ℝ → Measure ℝ) (hprob : ∀ c a, IsProbabilityMeasure (M c a))
+    (hM : MetricDP (fun c => 0 < c.eps ∧ 0 < c.sens) M) (S : Set (List ℝ × List ℝ)) (hS : MeasurableSet S) :
+    (scalerPlan p).law M (pre ++ r :: post) S ≤
+      ENNReal.ofReal (Real.exp p.eps) * (scalerPlan p).law M (pre ++ r' :: post) S :=
+  PM.plan_dp_of_lossLe _ M hM _ _ _ _ (scaler_privloss_free p hε.le hd hb pre post r r' hn)
+    (probesAgree_of_probeFree _ _ _ (scalerPlan_probeFree p)) (callsSat_scalerPlan p hε hd hn2 hb')
+    (meas_scalerPlan M hprob p) S hS
+
+/-- … in particular with every invocation drawn from the truncated Laplace law (no hypothesis on the mechanisms left;
+the `LaplaceBoundedDomain` draws of the variances are modelled by the same truncated Laplace family here) -/
+theorem scaler_fit_dp_laplace (p : ScalerParams ℝ) (hε : 0 < p.eps) (hd : 0 < p.d) (hn2 : 2 ≤ p.n)
+    (hb : ∀ j, nth p.lo j ≤ nth p.hi j) (hb' : ∀ j, j < p.d → nth p.lo j < nth p.hi j)
+    (pre post : DS ℝ) (r r' : Rec ℝ) (hn : p.n = pre.length + 1 + post.length)
+    (S : Set (List ℝ × List ℝ)) (hS : MeasurableSet S) :
+    (scalerPlan p).law truncLapKernel (pre ++ r :: post) S ≤
+      ENNReal.ofReal (Real.exp p.eps) * (scalerPlan p).law truncLapKernel (pre ++ r' :: post) S :=
+  scaler_fit_dp p hε hd hn2 hb hb' pre post r r' hn truncLapKernel truncLapKernel_isProb truncLapKernel_metricDP S hS
+
+/-- non-vacuity of the hypotheses of `scaler_fit_dp` (ε = 1, one column with bounds (0, 1), two records) -/
+example : ∃ (p : ScalerParams ℝ) (pre post : DS ℝ), 0 < p.eps ∧ 0 < p.d ∧ 2 ≤ p.n ∧
+    (∀ j, nth p.lo j ≤ nth p.hi j) ∧ (∀ j, j < p.d → nth p.lo j < nth p.hi j) ∧
+    p.n = pre.length + 1 + post.length :=
+  ⟨⟨1, [0], [1], 2, 1, true, true⟩, [⟨[0], 0, []⟩], [], by norm_num, by norm_num, by norm_num,
+    by intro j; cases j <;> simp [nth], by intro j hj; interval_cases j; simp [nth], rfl⟩
+
+/-- non-vacuity of `Plan.Meas` beyond the scaler: a genuinely adaptive two-call plan — the release adds the first
+output to the second — has measurable continuations for every family of probability laws -/
+example (M : MechCall ℝ → ℝ → Measure ℝ) (hprob : ∀ c a, IsProbabilityMeasure (M c a)) (c₁ c₂ : MechCall ℝ)
+    (i₁ i₂ : DS ℝ → ℝ) :
+    (Plan.call c₁ i₁ fun o₁ => Plan.call c₂ i₂ fun o₂ => Plan.release (o₁ + o₂)).Meas M := by
+  refine ⟨fun D => ?_, fun o₁ => ⟨fun D => ?_, fun _ => trivial⟩⟩
+  · have := law_isProb M hprob (one c₂ i₂) (meas_one M c₂ i₂) D
+    refine measurable_law_bind_param M (one c₂ i₂) (meas_one M c₂ i₂) D (fun o₁ o₂ => Plan.release (o₁ + o₂))
+      (fun D => ?_)
+    simp only [Plan.law]
+    exact Measure.measurable_dirac.comp (measurable_fst.add measurable_snd)
+  · simp only [Plan.law]
+    exact Measure.measurable_dirac.comp (measurable_const.add measurable_id)
+
+/-- **GaussianNB.fit is ε-DP (2ε when the replaced record changes label)**, set-function semantics (`Plan.lawOn`: every
+set of releases, no measurability condition on the count-repair post-processing): for every dataset and
+single-record replacement that keeps the label-presence pattern (the plan's only probe, C06), every metric-DP family -/
+theorem gnb_fit_dp (p : GnbParams ℝ) (hε : 0 < p.eps) (hd : 0 < p.d) (hb : ∀ j, nth p.lo j ≤ nth p.hi j)
+    (hb' : ∀ j, j < p.d → nth p.lo j < nth p.hi j) (pre post : DS ℝ) (r r' : Rec ℝ)
+    (hocc : ((List.range p.K).map fun c => (pre ++ r :: post).any (fun q => q.y == c)) =
+      ((List.range p.K).map fun c => (pre ++ r' :: post).any (fun q => q.y == c)))
+    (M : MechCall ℝ → ℝ → Measure ℝ) (hM : MetricDP (fun c => 0 < c.eps ∧ 0 < c.sens) M) (S : Set (GnbRelease ℝ)) :
+    (gnbPlan p).lawOn M (pre ++ r :: post) S ≤
+      ENNReal.ofReal (Real.exp ((if r.y = r'.y then 1 else 2) * p.eps)) * (gnbPlan p).lawOn M (pre ++ r' :: post) S :=
+  PM.lawOn_dp_of_lossLe _ M hM _ _ _ _ (gnb_privloss p hε.le hd hb pre post r r')
+    (probesAgree_gnbPlan p _ _ hocc) (callsSat_gnbPlan p hε hd hb') S
+
+/-- non-vacuity of the hypotheses of `gnb_fit_dp`: two classes, both still present after the replacement -/
+example : ∃ (p : GnbParams ℝ) (pre post : DS ℝ) (r r' : Rec ℝ), 0 < p.eps ∧ 0 < p.d ∧
+    (∀ j, nth p.lo j ≤ nth p.hi j) ∧ (∀ j, j < p.d → nth p.lo j < nth p.hi j) ∧ r.y ≠ r'.y ∧
+    ((List.range p.K).map fun c => (pre ++ r :: post).any (fun q => q.y == c)) =
+      ((List.range p.K).map fun c => (pre ++ r' :: post).any (fun q => q.y == c)) :=
+  ⟨⟨1, [10], [11], 3, 1, 2⟩, [⟨[10], 0, []⟩, ⟨[11], 1, []⟩], [], ⟨[10], 0, []⟩, ⟨[10], 1, []⟩, by norm_num, by norm_num,
+    by intro j; cases j <;> simp [nth] <;> norm_num, by intro j hj; interval_cases j; simp [nth]; norm_num, by decide, by decide⟩
+
+end Compose
 
 end DPL.C08
